@@ -4,7 +4,9 @@ import (
 	"context"
 	"errors"
 	"fmt"
+	"github.com/iDigitalFlame/xmt/c2/task"
 	"io"
+	"math"
 	"net"
 	"os"
 	"path/filepath"
@@ -157,7 +159,7 @@ func (e *c19Env) advance(d time.Duration) {
 }
 
 // cfg.Profile
-func (e *c19Env) Jitter() int8              { return -1 }
+func (e *c19Env) Jitter() int8 { return -1 }
 func (e *c19Env) Switch(b bool) bool {
 	e.sw = append(e.sw, b) // what listen reports to the selector before every connection attempt
 	return false
@@ -666,6 +668,12 @@ func c19Loop(c *Ctx, l *c19LoopCase) {
 	x, cancel := context.WithCancel(context.Background())
 	e.cancel = cancel
 	e.h = c2.VerifC19New(x, e, e, c19ID, time.Duration(l.sleep), l.jitter, l.killTime(), l.work)
+	if (l.now/1000)%4 == 1 {
+		// a Profile that says nothing about sleep, jitter, kill date or work hours is swapped in at the
+		// first turn (a MvProfile order moving the client to another host): every setting stays
+		e.h.Swap(e)
+		c.Count("loop:profile-swap")
+	}
 	pan := ""
 	func() {
 		defer func() {
@@ -1169,6 +1177,48 @@ func runC19(c *Ctx) {
 		c.Eval(l.kill != nil, fmt.Sprintf("loop:%v", l.input()))
 	})
 
+	// E2. a sleep ordered by the server (MvTime packet, client handler muxHandleInternal) and the delay
+	// chosen afterwards: a non-positive ordered sleep leaves the setting as it was; the delay of the next
+	// wait() is positive and within the sleep in force plus or minus one sleep
+	c.Cases("ordered", c.N(400, 5000), func(r *Rng, i int) {
+		l := &c19LoopCase{sleep: int64(time.Millisecond) * int64(1+r.Intn(600000)), now: 1709500000000000000 + int64(r.Intn(1000000))*1000000}
+		l.jitter = []uint8{0, 0, 10, 50, 100}[r.Intn(5)]
+		for k := 0; k < 6; k++ {
+			l.draws = append(l.draws, uint32(r.U64()))
+		}
+		e := l.env()
+		e.install()
+		defer c19Uninstall()
+		x, cancel := context.WithCancel(context.Background())
+		defer cancel()
+		e.cancel = cancel
+		e.h = c2.VerifC19New(x, e, e, c19ID, time.Duration(l.sleep), l.jitter, time.Time{}, nil)
+		defer e.h.StopTick()
+		d := []int64{-1, -5000000000, 0, math.MinInt64, int64(time.Millisecond) * int64(1+r.Intn(600000)), int64(time.Millisecond) * int64(1+r.Intn(600000)), 1}[r.Intn(7)]
+		j := []int{-1, -1, 0, 25, 100}[r.Intn(5)]
+		in := map[string]interface{}{"sleep_ns": l.sleep, "jitter": l.jitter, "ordered_sleep_ns": d, "ordered_jitter": j}
+		if err := e.h.Order(task.Duration(time.Duration(d), j)); err != nil {
+			c.Fail("order", "order:handler-error", "the MvTime handler failed: "+err.Error(), in)
+			return
+		}
+		eff := l.sleep
+		if d > 0 {
+			eff = d
+		}
+		if int64(e.h.Sleep()) != eff {
+			c.Fail("order", "order:sleep-setting", fmt.Sprintf("sleep was %d ns, %d ns ordered: the client now has %d ns (a non-positive order leaves the sleep unchanged)", l.sleep, d, int64(e.h.Sleep())), in)
+		}
+		e.h.Wait()
+		switch {
+		case len(e.sleeps) != 1:
+			c.Fail("delay-range", "order:no-delay", fmt.Sprintf("after the order the client chose %d delays in one wait(), expected one", len(e.sleeps)), in)
+		case e.sleeps[0] <= 0 || uint64(e.sleeps[0]) > 2*uint64(eff):
+			c.Fail("delay-range", "order:delay-out-of-range", fmt.Sprintf("delay %d ns with a sleep of %d ns in force", int64(e.sleeps[0]), eff), in)
+		}
+		c.Count(fmt.Sprintf("ordered:d%+d", c19Sign(d)))
+		c.Eval(true, fmt.Sprint("ordered", l.sleep, d, j))
+	})
+
 	// F. the first connection (connectContextInner)
 	c.Cases("first", c.N(600, 6000), func(r *Rng, i int) {
 		l := c19GenLoop(r)
@@ -1178,3 +1228,13 @@ func runC19(c *Ctx) {
 }
 
 func init() { register("C19", runC19) }
+
+func c19Sign(v int64) int {
+	switch {
+	case v < 0:
+		return -1
+	case v > 0:
+		return 1
+	}
+	return 0
+}
